@@ -426,9 +426,9 @@ fn run_credit(ch: Chooser, ctx: &RunCtx, mut opts: BasicOpts) -> RunOut {
     let mut w = World::from_ctx(ch, ctx);
     opts.allow_corrupt = false;
     opts.op_kinds = vec![0, 1, 4];
-    opts.wl.stop = 200;
+    opts.wl.stop = 300;
     opts.wl.unordered = 200;
-    opts.wl.lazy = 300;
+    opts.wl.lazy = 500;
     let mut sk = TKnobs::draw(&mut w.ch);
     let mut ck = TKnobs::draw(&mut w.ch);
     for k in [&mut sk, &mut ck] {
@@ -449,18 +449,18 @@ fn fam_probe(ch: Chooser, ctx: &RunCtx) -> RunOut {
     run_probe(ch, ctx)
 }
 fn fam_credit(ch: Chooser, ctx: &RunCtx) -> RunOut {
-    run_credit(ch, ctx, BasicOpts { streams_max: 6, size_max: 60_000, reset_rate: 200, ..Default::default() })
+    run_credit(ch, ctx, BasicOpts { streams_max: 6, size_max: 60_000, reset_rate: 350, ..Default::default() })
 }
 fn fam_credit_multi(ch: Chooser, ctx: &RunCtx) -> RunOut {
-    run_credit(ch, ctx, BasicOpts { n_clients: 2, conns_per_client: 2, streams_max: 4, size_max: 20_000, reset_rate: 200, ..Default::default() })
+    run_credit(ch, ctx, BasicOpts { n_clients: 2, conns_per_client: 2, streams_max: 4, size_max: 20_000, reset_rate: 350, ..Default::default() })
 }
 
 pub fn spec() -> PropSpec {
     PropSpec {
         id: "C06",
         families: vec![Family { name: "boundary-probe", f: fam_probe, weight: 55 }, Family { name: "credit-return", f: fam_credit, weight: 30 }, Family { name: "credit-return-multi", f: fam_credit_multi, weight: 15 }],
-        quick_worlds: 15_000,
-        thorough_worlds: 500_000,
+        quick_worlds: 90_000,
+        thorough_worlds: 1_350_000,
         panic_is_violation: true,
         rule: "boundary-probe worlds = a server with limits drawn from {0,1,2,3, values around 2^6 and 2^14, defaults}, an honest client and a client whose correctly protected 1-RTT packets are rewritten to carry one frame sequence one below, at, or one/two above an advertised limit (stream data, connection data, stream count uni/bidi, final size by RESET_STREAM, data beyond FIN, datagram size, CRYPTO buffer) at a drawn instant; credit-return worlds = honest transfers with readers that stop streams, read unordered or in small pieces, senders that reset, run-time stream-limit changes, and loss / duplication / reordering; non-trivial = a probe or fault fired; distinct = distinct abstract-event signature",
         assumptions: vec![
